@@ -648,3 +648,35 @@ Fixpoint run (w : world) (st : state) (prog : list op) : result :=
 
 Definition init (w : world) : state := mkState [] [] 0 (ext_cache0 w) [].
 Definition vm_run (w : world) (prog : list op) : result := run w (init w) prog.
+
+(** * The default process: what find_class finds for the built-in allow-list
+    (measured by the correspondence check: harness/props/c15.py, "default world") *)
+Local Open Scope string_scope.
+Definition default_modules : list pystr :=
+  map s2p ["builtins"; "datetime"; "decimal"; "uuid"; "orderly_set"; "orderly_set.sets";
+           "deepdiff"; "deepdiff.helper"; "collections"; "re"].
+Definition default_found : list (pystr * pystr * gkind) :=
+  map (fun t => (s2p (fst (fst t)), s2p (snd (fst t)), snd t)) [
+    ("builtins", "range", GType); ("builtins", "complex", GType); ("builtins", "set", GType);
+    ("builtins", "frozenset", GType); ("builtins", "slice", GType); ("builtins", "str", GType);
+    ("builtins", "bytes", GType); ("builtins", "list", GType); ("builtins", "tuple", GType);
+    ("builtins", "int", GType); ("builtins", "float", GType); ("builtins", "dict", GType);
+    ("builtins", "bool", GType); ("builtins", "bin", GFunc); ("builtins", "None", GNone);
+    ("datetime", "datetime", GType); ("datetime", "time", GType); ("datetime", "timedelta", GType);
+    ("decimal", "Decimal", GType); ("uuid", "UUID", GType);
+    ("orderly_set.sets", "OrderedSet", GType); ("orderly_set.sets", "OrderlySet", GType);
+    ("orderly_set.sets", "StableSetEq", GType);
+    ("deepdiff.helper", "SetOrdered", GType); ("deepdiff.helper", "Opcode", GType);
+    ("collections", "namedtuple", GFunc); ("collections", "OrderedDict", GType);
+    ("re", "Pattern", GType) ].
+Local Close Scope string_scope.
+Definition default_lookup (m n : pystr) : lookup_res :=
+  if mem_str m default_modules then
+    match find (fun t => pystr_eqb (fst (fst t)) m && pystr_eqb (snd (fst t)) n) default_found with
+    | Some t => Found (snd t)
+    | None => NoAttr
+    end
+  else NoModule.
+(* no safe_to_import, empty extension registry and cache, constructors accept their arguments *)
+Definition default_world : world :=
+  mkWorld SAFE_TO_IMPORT default_lookup (fun _ _ _ => true) (fun _ _ => true) [] (fun _ => None).
